@@ -175,6 +175,16 @@ let judge _id (c : cursor) (r : cursor) : bool * string =
              if not (in_box2b (q_sub lo (sl lo)) (q_add hi (sl hi)) ia ic) then
                oracle_fail "doubleq_bounded" site (Printf.sprintf "qa or qc-qa outside [%s,%s]: qa %s qc %s" (string_of_q lo) (string_of_q hi) (str_tab ia) (str_tab ic))
            | None -> ());
+          (* round 6, O: the documented rule on the documented tables A = qa, B = qc - qa, between two consecutive
+             dumps (exact regime, single step) *)
+          (match pend with
+           | [((((coin, s), a), s1), rw)] when ex ->
+             if not (dq_documentedb (nat_of_int ns) (nat_of_int na) !alpha !g !state (ia, ic) coin s a s1 rw) then
+               oracle_fail "doubleq_documented_rule" site
+                 (Printf.sprintf "coin %b sample (%d,%d,%d,%s) alpha %s gamma %s: qa %s qc %s -> qa %s qc %s" coin (int_of_nat s) (int_of_nat a)
+                    (int_of_nat s1) (string_of_q rw) (string_of_q !alpha) (string_of_q !g)
+                    (str_tab (fst !state)) (str_tab (snd !state)) (str_tab ia) (str_tab ic))
+           | _ -> ());
           let tie = ref false in
           let (ma, mc) = List.fold_left (fun (qa, qc) (((((coin, s), a), s1), rw) as e) ->
               let ra = matrix_row qa s1 and rc = matrix_row qc s1 in
@@ -223,7 +233,9 @@ let judge _id (c : cursor) (r : cursor) : bool * string =
       | "octl" -> egreedy_row !eps (matrix_row q s1)
       | _ -> matrix_row tgt s1 in
     let lam_family = (kind = "sarsal" || k <> "is") in
-    let mats_small = small_tab tgt && small_tab beh
+    (* round 6: a tail probability 2^-20..2^-30 times a table entry with up to 18 fractional bits needs more than
+       53 bits, so such evaluation cases are never "exact" (false alarm seen once: 1 ulp at 2^-39 on -14080) *)
+    let mats_small = small_tab tgt && small_tab beh && (kind <> "oevl" || small_tab_n 12 tgt)
                      && (kind <> "octl" || na = 1 || na = 2 || na = 4)
                      && (not (k = "retrace" || k = "is") || List.for_all (List.for_all pow2inv) beh) in
     let state = ref (qzero (nat_of_int ns) (nat_of_int na), ([] : tr list)) in
@@ -536,6 +548,65 @@ let judge _id (c : cursor) (r : cursor) : bool * string =
       st := ((pp', (iqp, itp)), (pt', (iqt, itt)))
     done;
     (!batches > 0, "dyna2" ^ (if !setters > 0 then "_setters" else ""))
+  | "dqstar" ->
+    (* round 6: both tables at Q* (setQFunction), one stepUpdateQ per successor state, table reset before each *)
+    let ns = next_int c in let na = next_int c in
+    let alpha = next_q c in let g = next_q c in
+    let tm = List.init na (fun _ -> List.init ns (fun _ -> List.init ns (fun _ -> next_q c))) in
+    let qs = read_table c ns na in
+    let rm = read_table c ns na in
+    let m = { nS = nat_of_int ns; nA = nat_of_int na; p = tm; r = rm; gam = g } in
+    if not (ps_bellmanb m q_zero qs) then failwith "dqstar: generated table is not Q* of the generated MDP";
+    let q2 = List.map (List.map (fun x -> q_add x x)) qs in
+    let site = "DoubleQLearning::stepUpdateQ" in
+    let np = next_int c in
+    let heads = ref 0 and tails = ref 0 and moved = ref false and det = ref false in
+    let tab_eq t t' = List.for_all2 (fun r r' -> List.for_all2 q_eq r r') t t' in
+    for _ = 1 to np do
+      let s = next_nat c in let a = next_nat c in
+      let rw = matrix_get rm s a in
+      let prow = matrix_row (List.nth tm (int_of_nat a)) s in
+      let dumps = List.init ns (fun s1i ->
+          let s1 = nat_of_int s1i in
+          let coin = (next_int r) <> 0 in
+          if coin then incr heads else incr tails;
+          let ia = read_table r ns na in let ic = read_table r ns na in let ib = read_table r ns na in
+          (* O: documented rule on the documented tables A, B (here A = B = Q*, so B(s1, argmax A(s1,.)) = max Q*(s1,.)) *)
+          let tgt = q_add (matrix_get qs s a)
+              (q_mul alpha (q_sub (q_add rw (q_mul g (maxl (matrix_row qs s1)))) (matrix_get qs s a))) in
+          let want = upd2 qs s a tgt in
+          let (wa, wb) = if coin then (want, qs) else (qs, want) in
+          if not (tab_eq ia wa && tab_eq ib wb) then
+            oracle_fail "doubleq_documented_rule" site
+              (Printf.sprintf "coin %b sample (%d,%d,%d): A %s B %s, documented A %s B %s" coin (int_of_nat s) (int_of_nat a) s1i
+                 (str_tab ia) (str_tab ib) (str_tab wa) (str_tab wb));
+          if not (tab_eq ic (List.map2 (List.map2 q_add) ia ib)) then
+            oracle_fail "doubleq_documented_rule" "DoubleQLearning::getQFunction" "getQFunction <> A + B";
+          if not (q_eq tgt (matrix_get qs s a)) then moved := true;
+          (* O: deterministic clause *)
+          if q_eq (List.nth prow s1i) q_one then begin
+            det := true;
+            if not (tab_eq ia qs && tab_eq ic q2) then
+              oracle_fail "doubleq_optimal_fixpoint" site
+                (Printf.sprintf "deterministic (%d,%d)->%d from Q*: qa %s qc %s" (int_of_nat s) (int_of_nat a) s1i (str_tab ia) (str_tab ic))
+          end;
+          (coin, s1, ia, ic, ib)) in
+      (* O: fixed point in expectation over s1 ~ T(s,a,.) *)
+      let at f s1 = let (coin, _, ia, ic, ib) = List.nth dumps (int_of_nat s1) in f coin ia ic ib in
+      let ec = dq_expected m s a (at (fun _ _ ic _ -> matrix_get ic s a)) in
+      let ex = dq_expected m s a (at (fun coin ia _ ib -> matrix_get (if coin then ia else ib) s a)) in
+      let eo = dq_expected m s a (at (fun coin ia _ ib -> matrix_get (if coin then ib else ia) s a)) in
+      if not (q_eq ec (matrix_get q2 s a) && q_eq ex (matrix_get qs s a) && q_eq eo (matrix_get qs s a)) then
+        oracle_fail "doubleq_optimal_expected_fixpoint" site
+          (Printf.sprintf "(%d,%d): E[qc'] = %s (2Q* = %s), E[updated table'] = %s, E[other table'] = %s (Q* = %s)"
+             (int_of_nat s) (int_of_nat a) (string_of_q ec) (string_of_q (matrix_get q2 s a)) (string_of_q ex) (string_of_q eo)
+             (string_of_q (matrix_get qs s a)));
+      (* C: model step from the stored pair (Qstar, 2 Qstar) *)
+      List.iter (fun (coin, s1, ia, ic, _) ->
+          let (ma, mc) = dq_step alpha g (qs, q2) ((((coin, s), a), s1), rw) in
+          cmp_tab ~exact:true "dq_step_qa" site ma ia; cmp_tab ~exact:true "dq_step_qc" site mc ic) dumps
+    done;
+    (!heads > 0 && !tails > 0 && !moved, "dqstar" ^ (if !det then "_det" else "_sto"))
   | k -> failwith ("unknown case kind " ^ k)
 
 let () = main_loop judge
